@@ -16,6 +16,11 @@ import (
 
 	"github.com/anthdm/hollywood/actor"
 	"github.com/anthdm/hollywood/internal/vgen"
+	"google.golang.org/protobuf/proto"
+	"google.golang.org/protobuf/reflect/protodesc"
+	"google.golang.org/protobuf/reflect/protoreflect"
+	"google.golang.org/protobuf/types/descriptorpb"
+	"google.golang.org/protobuf/types/dynamicpb"
 )
 
 func vFreeAddr() string {
@@ -254,11 +259,91 @@ func runRemoteUnreach(t testing.TB, n int) string {
 	return fmt.Sprintf("unreachable=%d dead=%d deadtags=%s later=%d", unreach, dead, strings.Join(tags, "."), later)
 }
 
+// abort: the peer's reader ends the stream (a message whose type the receiver does not know) while the TCP
+// connection stays up; the writer must give the connection up, report the peer and make a fresh attempt
+func runRemoteAbort(t testing.TB) string {
+	a, ra, err := vRemoteEngine(vFreeAddr())
+	if err != nil {
+		return "setup-error"
+	}
+	defer func() { ra.Stop().Wait() }()
+	bAddr := vFreeAddr()
+	b, rb, err := vRemoteEngine(bAddr)
+	if err != nil {
+		return "setup-error"
+	}
+	defer func() { rb.Stop().Wait() }()
+	var mu sync.Mutex
+	got := map[string]int{}
+	b.SpawnFunc(func(c *actor.Context) {
+		if m, ok := c.Message().(*TestMessage); ok {
+			mu.Lock()
+			got[string(m.Data)]++
+			mu.Unlock()
+		}
+	}, "tgt", actor.WithID("x"))
+	evs := &vEvRec{pid: actor.NewPID(a.Address(), "verif/evrec")}
+	a.SpawnProc(evs)
+	a.Subscribe(evs.pid)
+	target := actor.NewPID(bAddr, "tgt/x")
+	a.Send(target, &TestMessage{Data: []byte("first")})
+	if !vWaitFor(func() bool { mu.Lock(); defer mu.Unlock(); return got["first"] == 1 }, 5*time.Second) {
+		return "no-initial-delivery"
+	}
+	// a message of a type that is not in the receiver's registry: its reader returns an error and ends the stream
+	a.Send(target, vUnknownTypeMessage())
+	resumed := false
+	for i := 0; i < 60 && !resumed; i++ {
+		a.Send(target, &TestMessage{Data: []byte("probe")})
+		time.Sleep(100 * time.Millisecond)
+		mu.Lock()
+		resumed = got["probe"] > 0
+		mu.Unlock()
+	}
+	evs.mu.Lock()
+	unreach := evs.unreach
+	evs.mu.Unlock()
+	u := 0
+	if unreach > 0 {
+		u = 1
+	}
+	r := 0
+	if resumed {
+		r = 1
+	}
+	return fmt.Sprintf("reported=%d resumed=%d", u, r)
+}
+
+// a dynamic proto message whose type is registered nowhere
+func vUnknownTypeMessage() proto.Message {
+	fdp := &descriptorpb.FileDescriptorProto{
+		Name:    proto.String("verif_unknown.proto"),
+		Package: proto.String("verifunknown"),
+		Syntax:  proto.String("proto3"),
+		MessageType: []*descriptorpb.DescriptorProto{{
+			Name: proto.String("Ghost"),
+			Field: []*descriptorpb.FieldDescriptorProto{{
+				Name: proto.String("x"), Number: proto.Int32(1),
+				Type:  descriptorpb.FieldDescriptorProto_TYPE_STRING.Enum(),
+				Label: descriptorpb.FieldDescriptorProto_LABEL_OPTIONAL.Enum(),
+			}},
+		}},
+	}
+	fd, err := protodesc.NewFile(fdp, nil)
+	if err != nil {
+		panic(err)
+	}
+	m := dynamicpb.NewMessage(fd.Messages().Get(0))
+	m.Set(fd.Messages().Get(0).Fields().Get(0), protoreflect.ValueOfString("boo"))
+	return m
+}
+
 // state: a sequence of start / stop / dial operations on one Remote
 func runRemoteState(t testing.TB, ops []string) string {
 	addr := vFreeAddr()
 	r := New(addr, NewConfig())
 	var e *actor.Engine
+	var probeCh chan struct{}
 	var out []string
 	for _, op := range ops {
 		res := func() (s string) {
@@ -289,6 +374,39 @@ func runRemoteState(t testing.TB, ops []string) string {
 					return "stopped"
 				case <-time.After(5 * time.Second):
 					return "STOP-BLOCKED"
+				}
+			case "start2": // Start again with ANOTHER engine: refused, and must not disturb the running remote
+				if e == nil {
+					return "skip"
+				}
+				if _, err := actor.NewEngine(actor.NewEngineConfig().WithRemote(r)); err != nil {
+					return "already"
+				}
+				return "started"
+			case "probe": // does a message from another node still reach an actor of the FIRST engine?
+				if e == nil {
+					return "skip"
+				}
+				if probeCh == nil {
+					probeCh = make(chan struct{}, 16)
+					ch := probeCh
+					e.SpawnFunc(func(c *actor.Context) {
+						if _, ok := c.Message().(*TestMessage); ok {
+							ch <- struct{}{}
+						}
+					}, "probe", actor.WithID("p"))
+				}
+				other, ro, err := vRemoteEngine(vFreeAddr())
+				if err != nil {
+					return "setup-error"
+				}
+				defer func() { ro.Stop().Wait() }()
+				other.Send(actor.NewPID(addr, "probe/p"), &TestMessage{Data: []byte("p")})
+				select {
+				case <-probeCh:
+					return "reached"
+				case <-time.After(700 * time.Millisecond):
+					return "lost"
 				}
 			case "dial":
 				c, err := net.DialTimeout("tcp", addr, 500*time.Millisecond)
@@ -323,6 +441,8 @@ func TestVerifRemote(t *testing.T) {
 			w.Case(id, in, runRemoteReqResp(t, vgen.KVInt(in, "n", 1)))
 		case "unreach":
 			w.Case(id, in, runRemoteUnreach(t, vgen.KVInt(in, "msgs", 1)))
+		case "abort":
+			w.Case(id, in, runRemoteAbort(t))
 		case "state":
 			o, _ := vgen.KV(in, "ops")
 			w.Case(id, in, runRemoteState(t, strings.Split(o, ",")))
@@ -353,11 +473,13 @@ func TestVerifRemote(t *testing.T) {
 	for i := 0; i < vgen.Scale(1, 4); i++ {
 		run(fmt.Sprintf("u%d", i), fmt.Sprintf("kind=unreach msgs=%d", 1+r.Intn(12)), 0)
 	}
-	stateSeqs := []string{"start,dial,start,dial,stop,dial,stop,dial", "stop,start,dial,stop,stop,start,dial", "dial,start,stop,dial"}
+	run("ab0", "kind=abort", 0)
+	stateSeqs := []string{"start,dial,start,dial,stop,dial,stop,dial", "stop,start,dial,stop,stop,start,dial", "dial,start,stop,dial",
+		"start,probe,start2,probe,dial", "start,start2,start2,probe,stop,probe"}
 	for i := 0; i < vgen.Scale(4, 20); i++ {
 		var ops []string
 		for j := 0; j < 3+r.Intn(6); j++ {
-			ops = append(ops, vgen.Pick(r, []string{"start", "stop", "dial", "dial"}))
+			ops = append(ops, vgen.Pick(r, []string{"start", "stop", "dial", "dial", "start2", "probe"}))
 		}
 		stateSeqs = append(stateSeqs, strings.Join(ops, ","))
 	}
